@@ -38,7 +38,7 @@ def build_binary(prefix):
 def gen_run(rng: Rng, rid):
     run = {'id': str(rid), 'seed': 1, 'policy': 0, 'p1': 0, 'p2': 0, 'stall_from': 0, 'stall_len': 0, 'budget': 50000, 'sched': None, 'tasks': []}
     for k in range(rng.between(2, 3)):
-        secs = [[rng.below(6), rng.between(1, 3), rng.between(0, 3)] for _ in range(rng.between(1, 5))]
+        secs = [[rng.below(7), rng.between(1, 3), rng.between(0, 3)] for _ in range(rng.between(1, 5))]
         run['tasks'].append({'name': f't{k}', 'sections': secs})
     tapes.random_sched(rng, run, 60)
     run['stall_len'] = 0
